@@ -600,14 +600,15 @@ SPEC = {
     'gen_cases': gen_cases,
     'shrink': shrink,
     'classify': classify,
-    'rule': 'random programs (length 1-40) of editing calls over generated documents (page trees of depth <= 4 with own / '
+    'rule': 'random programs (length 1-40) of editing calls incl. add_bookmark / build_outline / save (15 % are outline programs: a nested '
+            'bookmark forest, build_outline, then allocating operations, sometimes a second build_outline) over generated documents (page trees of depth <= 4 with own / '
             'inherited / indirect resources, content as reference / array / indirect array / shared stream, annotations, '
             'unreachable objects, indirect-reference objects, sparse ids, max_id at / above / below the largest id and at '
             'u32::MAX); after every step the canonical dump (objects, trailer, max_id) and the returned value are compared '
             'with the model and the invariants are evaluated on the implementation; non-trivial = at least 2 operations; '
             'distinct = distinct case text',
     'extra_trusted': ['C11: flate2/weezl are oracles whose answers come from the case (same table as C09)'],
-    'partial_note': 'proved: allocation invariant over every program, freshness, no collision, pruning = unreachable, frames of the allocation operations, delete_object leaves no reference behind (+ frame, termination), page content after add_page_contents on plain pages; NOT proved as universally quantified theorems: Count bookkeeping of delete_pages, page content after change_page_content, effective resources after the resource operations -- these are decided on the implementation after every step by the harness and tied to the model by correspondence; three open known findings with class predicates and computed witnesses',
+    'partial_note': 'proved: allocation invariant / freshness / no collision over every program of the whole Document state (incl. add_bookmark, build_outline on every table, save, renumber with bookmarks), build_outline reserves exactly the ids it uses (with C17), pruning = unreachable, delete_object leaves no reference (+ frame, termination), I_content for add_page_contents / add_to_page_content / change_content_stream / change_page_content on plain pages (complement of the two open content classes), I_resources on every object graph for get_or_create_resources and add_graphics_state (after the repair c729297); PARTIAL: add_xobject when the XObject category is an indirect reference (typing hypothesis missing), I_count only as the Parent-chain bookkeeping of delete_pages (tree-level statement missing) -- both decided on the implementation after every step by the harness and tied to the model by correspondence; two open known findings (content-indirect, content-shared) with class predicates and computed witnesses',
 }
 
 
@@ -619,15 +620,15 @@ MANIFEST = {
     'level_text': 'Machine-checked proofs (Coq) over an executable model of the public editing calls (new_object_id, add_object, '
                   'set_object, delete_object, remove_object, prune_objects, delete_pages, renumber_objects, compress, decompress, '
                   'change_content_stream, change_page_content, add_page_contents, add_to_page_content, get_or_create_resources, '
-                  'add_xobject, add_graphics_state): for EVERY program max_id stays >= every object number, handed-out ids are fresh '
+                  'add_xobject, add_graphics_state, add_bookmark, build_outline, save): for EVERY program max_id stays >= every object number, handed-out ids are fresh '
                   'and never collide, pruning removes exactly the unreachable objects, delete_object leaves no reference to the deleted '
                   'object in the trailer or in anything reachable (after four repairs); the model is tied to the implementation by '
                   'random programs compared after every step, and the invariants (counts, contents, resources, frames) are evaluated '
                   'directly on the implementation after every step.',
     'level_note': 'Trusted: Coq kernel; hand-written model Model/Edit.v tied by correspondence (observable: returned values and the '
                   'canonical dump of objects, trailer, max_id after every call); flate2 as an oracle whose answers come from the case; '
-                  'extraction/OCaml driver; Rust harness. Four delete_object defects repaired in /repo; three open known findings '
-                  '(inherited resources shadowed, Contents as indirect array, shared content stream) with class predicates.',
+                  'extraction/OCaml driver; Rust harness. Five defects repaired in /repo (four in delete_object, inherited resources shadowed by '
+                  'get_or_create_resources); two open known findings (Contents as indirect array, shared content stream) with class predicates.',
     'technique': 'Coq proof by invariants over fold_left step + differential correspondence after every step + direct verdicts',
     'design_ref': 'DESIGN.md 6 C11',
 }
